@@ -19,7 +19,7 @@ def chain_check(ops, g, snapdir):
     k = 0
     for o in ops:
         own_first.append(k)
-        k += 2 if o['op'] in MUT else 1
+        k += 2 if has_state(o) else 1
     prev_regions = None
     prev_len = None
     live = {}
@@ -29,7 +29,7 @@ def chain_check(ops, g, snapdir):
         if not os.path.exists(p):
             return {'kind': 'died', 'op_index': i, 'what': 'no image after this operation'}
         c = o['op']
-        if c not in MUT:
+        if c not in MUT or o.get('ro'):
             continue
         img = open(p, 'rb').read()
         spans, problems = chain.walk(img)
